@@ -72,6 +72,18 @@ theorem point_block_sum (M : KModel V K) (n : ℕ) (x : ℕ → V) (a : ℕ → 
   rw [sum_congr rfl h, sum_sub_distrib, sum_ite_eq' (range n) k]
   simp [hk]
 
+/-! ### projections of the componentwise differences -/
+section proj
+variable {α A B : Type} [Sub α] [Sub A] [Sub B]
+@[simp] theorem V2.sub_x (u v : V2 α) : (u - v).x = u.x - v.x := rfl
+@[simp] theorem V2.sub_y (u v : V2 α) : (u - v).y = u.y - v.y := rfl
+@[simp] theorem V3.sub_x (u v : V3 α) : (u - v).x = u.x - v.x := rfl
+@[simp] theorem V3.sub_y (u v : V3 α) : (u - v).y = u.y - v.y := rfl
+@[simp] theorem V3.sub_z (u v : V3 α) : (u - v).z = u.z - v.z := rfl
+@[simp] theorem P2.sub_a (u v : P2 A B) : (u - v).a = u.a - v.a := rfl
+@[simp] theorem P2.sub_b (u v : P2 A B) : (u - v).b = u.b - v.b := rfl
+end proj
+
 /-! ### normalisation -/
 section order
 variable {F : Type} [Field F] [LinearOrder F] [IsStrictOrderedRing F]
